@@ -1,5 +1,6 @@
 import NixModel.Pure.NdStore
 import NixModel.Generated.DataSetShape
+import NixModel.Generated.DataSetDType
 
 /-!
 # Typed steps executed through the definitions compiled from the Python source (C01)
@@ -22,5 +23,16 @@ def stepGen (A : DArr) : TStep → Run
 def createGen (dtype : Option DType) (shape : Option (List Nat)) (data : Option Arr) (compr : Bool) :
     Except IoErr DArr :=
   (createRules (dtype.map .nix) (shape.map (·.map Int.ofNat)) data).bind (createFrom compr)
+
+/-- what h5py is asked for when `create_data_array` gets `dtype=<spelling>`: the argument travels untouched
+(`dtypeHops`) to `H5DataSet.__init__`, whose compiled rule (`h5InitDtype`) replaces nixio's text type by the
+variable-length string type; h5py then reads the value as NumPy does.  `none`: a spelling outside the model -/
+def spelledArg (s : Nix.NdSpell.Spelling) : Option DTypeArg :=
+  Nix.NdSpell.h5pyDtype Nix.Gen.DataSetDType.dataTypeMembers (Nix.Gen.DataSetDType.h5InitDtype (.spelled s))
+
+/-- `Block.create_data_array(dtype=<spelling>, shape=…, data=…)` -/
+def createSpelled (s : Nix.NdSpell.Spelling) (shape : Option (List Nat)) (data : Option Arr) (compr : Bool) :
+    Option (Except IoErr DArr) :=
+  (spelledArg s).map fun a => (createRules (some a) (shape.map (·.map Int.ofNat)) data).bind (createFrom compr)
 
 end Nix.Nd
